@@ -7,6 +7,8 @@ STD_SPECS = ["s01_u8_checked_shl", "s02_usize_leading_zeros", "s03_result_unwrap
 PROPS = {
     "C13": {
         "units": ["bitstream"],
+        "native_thorough": "c13_natural_replay",
+        "native_fallback": "c13_natural_replay",
         "kani": {"quick": STD_SPECS + ["c13_read_cmr_complete", "c13_read_cmr_short_complete"],
                  "thorough": ["c13_read_fail_entropy_complete", "c13_collect_bits_bounded20", "c13_writer_ops_bounded", "c13_reader_ops_bounded", "c13_write_after_flush_bounded", "c13_window_close_bounded"]},
         "cex": {"BitIter::byte_slice_window": "c13_byte_slice_window_exact_cex", "BitWriter::flush_all": "c13_write_after_flush_bounded",
@@ -67,6 +69,9 @@ PROPS = {
     },
     "C07": {
         "units": ["machine", "bounds"],
+        "native_cex": "c05_machine_semantics_replay",
+        "native_thorough": "c05_machine_semantics_replay",
+        "native_fallback": "c05_machine_semantics_replay",
         "fallback": {
             "Frame::write_bit": ["c05_frame_write_bit_bounded"],
             "Frame::read_bit": ["c05_frame_read_peek_bounded"],
@@ -100,6 +105,9 @@ PROPS = {
     },
     "C05": {
         "units": ["machine"],
+        "native_cex": "c05_machine_semantics_replay",
+        "native_thorough": "c05_machine_semantics_replay",
+        "native_fallback": "c05_machine_semantics_replay",
         "fallback": {
             "Frame::write_bit": ["c05_frame_write_bit_bounded"],
             "Frame::read_bit": ["c05_frame_read_peek_bounded"],
